@@ -469,3 +469,65 @@ def views_record(tid, inst, cf, ops=None, unique=False):
         g = m.get_matching(c)
         v['best_of_column'].append(fx(g.logprob) if g is not None else -BIG)
     return {'tid': tid, 'unique': unique, 'path': path, 'lat': ev['lat'], 'views': v}
+
+
+# ------------------------------------------------------------------ first-order weight tables of the real models (C01)
+def extract_tables(inst, cf):
+    """Evaluate the real model functions (logprob_obs, logprob_trans) and the map's distance functions for every
+    state x observation and every ordered pair of states, WITHOUT running the search: the tables the walk-enumeration
+    oracle of LatticeProps works on.  Distance cut-offs are turned into flags here (dE = 0 admissible / 2 cut off,
+    with maxDist = maxDistInit = 1 in the specification's configuration), so that no fixed-point comparison of a
+    distance with a cut-off is ever made."""
+    from leuvenmapmatching.util.segment import Segment
+    conc = Conc()
+    with log_level(False):
+        mp = build_map(inst, conc)
+        m = build_matcher(mp, cf, conc)
+    co = inst['coord']
+    adj = {n: [] for n in inst['nodes']}
+    for a, b in inst['edges']:
+        if b not in adj[a]:
+            adj[a].append(b)
+    for n in adj:
+        adj[n].append(n)
+    edges = [(a, b) for a in inst['nodes'] for b in adj[a] if a != b]
+    states = edges + ([] if cf['only_edges'] else [(n,) for n in inst['nodes']])
+    T = len(inst['path'])
+    md = math.inf if cf['max_dist'] is None else cf['max_dist']
+    mdi = md if cf['max_dist_init'] is None else cf['max_dist_init']
+    seg, rows = {}, []
+    for st in states:
+        row = {'st': list(st), 'dE': [], 'lE': [], 'dN': [0] * T, 'lN': [0] * T, 'ti': [], 'skip': [False] * T, 'linked': []}
+        for t in range(T):
+            obs = tuple(inst['path'][t])
+            if len(st) == 2:
+                pa, pb = tuple(float(v) for v in co[st[0]]), tuple(float(v) for v in co[st[1]])
+                dist, pi, ti = mp.distance_point_to_segment(obs, pa, pb)
+                sg = Segment(st[0], pa, st[1], pb, pi, ti)
+                row['ti'].append(0 if (abs(ti) <= 1e-8 or abs(ti - 1.0) <= 1e-8) else 1)
+            else:
+                pn = tuple(float(v) for v in co[st[0]])
+                dist = mp.distance(pn, obs)
+                sg = Segment(st[0], pn)
+                row['ti'].append(1)
+            eo = Segment(f'O{t}', obs)
+            lo = m.logprob_obs(dist, None, sg, eo)[0]
+            seg[(st, t)] = (sg, eo)
+            ok = (dist <= md) and (t > 0 or dist < mdi)
+            row['dE'].append(0 if ok else 2)
+            row['lE'].append(fx(lo))
+        rows.append(row)
+    tt = []
+    for t in range(1, T):
+        for p in states:
+            sgp, eop = seg[(p, t - 1)]
+            prev = m.matching(m, edge_m=sgp, edge_o=eop, logprob=0.0, logprobe=0.0, logprobne=0.0, obs=t - 1)
+            for s_ in states:
+                sgs, eos = seg[(s_, t)]
+                lt = m.logprob_trans(prev, sgs, eos, is_prev_ne=False, is_next_ne=False)[0]
+                tt.append([list(p), list(s_), t, fx(lt)])
+    itab = {'nodes': list(inst['nodes']), 'nbrs': [[n, adj[n]] for n in inst['nodes']], 'tab': rows,
+            'tr': {'move': 0, 'moveNE': 0, 'back': 0}, 'T': T, 'hasTT': True, 'tt': tt}
+    scf = spec_cf(cf)
+    scf.update(maxDist=1, maxDistInit=1, oracle=True, tables=False, slack=4 * T + 4)
+    return itab, scf
